@@ -4,6 +4,7 @@ Every failing call must leave NULL / the failure token, a documented errno and
 an output field that is exactly the token; requests the independent must-fail
 oracle rejects must never succeed.  Histories: the same data objects go through
 interleaved successes and failures of all entry points."""
+import os
 import re
 
 from .. import build, common, gen, pool, rt
@@ -98,9 +99,9 @@ def make_cases(seed, tier):
 
 
 def do_chunk(args):
-    tokens_enabled, chunk = args
+    tokens_enabled, chunk = args[:2]
     acc = common.Acc()
-    w = rt.vw(FL)
+    w = pool.worker(args[2]) if len(args) > 2 else rt.vw(FL)
     # errno as the caller left it before the call: 0, or an unrelated stale value (a failing call
     # must store its own code either way)
     pre = 0 if (len(chunk) + (chunk[0][2] or b"x")[-1]) % 2 else 2
@@ -205,6 +206,18 @@ def run(tier):
     cases = make_cases(run_.seed, tier)
     for acc in pool.pmap(do_chunk, [(tok, c) for c in pool.chunks(cases, 400)]):
         run_.merge(acc)
+    # the other setting of the build option: the same fail-closed contract with NULL instead of the token
+    from . import C19
+    import shutil
+    name, en, exe2, err, ipd = C19.build_config(("c05-noft", list(gen.METHODS), {"ENABLE_FAILURE_TOKENS": "0" if tok else "1"}))
+    if exe2 is None:
+        run_.acc.inconc("build with the other failure-token option failed: %s" % err[:200])
+    else:
+        sub = [c for c in cases if c[3] in ("crypt", "crypt_r")][:4000] + cases[:1500]
+        for acc in pool.pmap(do_chunk, [(not tok, c, exe2) for c in pool.chunks(sub, 400)]):
+            acc.n["other_option_failures"] = acc.n.get("failures", 0)
+            run_.merge(acc)
+        shutil.rmtree(os.path.dirname(exe2), ignore_errors=True)
     # the tokens themselves must be refused as settings (once; independent of seed)
     w = rt.vw(FL)
     res, end = w.run([rt.obj_line(0), rt.crypt_line("crypt_rn", 0, b"x", b"*0"),
@@ -224,6 +237,7 @@ def run(tier):
         "failures_observed": int(a.n.get("failures", 0)),
         "successes_observed": int(a.n.get("successes", 0)),
         "failure_tokens_enabled": tok,
+        "failures_observed_with_the_other_failure_token_option": int(a.n.get("other_option_failures", 0)),
         "exhaustive": tier == "thorough",
         "flavour": FL,
     }
